@@ -5,6 +5,9 @@ import CCVerif.Model.AstQuery
 import CCVerif.Lemmas.ParsePrint
 import CCVerif.Lemmas.ParsePrint2
 import CCVerif.Lemmas.PrintLex2
+import CCVerif.Lemmas.PrintLex3Print
+import CCVerif.Lemmas.ParsePrint3Emb
+import CCVerif.Lemmas.ParsePrint3Decl
 /-!
 # C05 — printing then re-parsing an expression preserves its tree (both syntaxes)
 
@@ -615,5 +618,173 @@ example : roundTrips .math (.node .PUNC_DEFINE .none 0 0 [.node .ID_FUNCTION (.t
     .node .NT_FUNC_DEFINITION .none 0 0 [.node .NT_ARGUMENTS .none 0 0
       [.node .NT_ARG_DECL .none 0 0 [lx "a", un .BOOLEAN (gX "X1")]], bin .SET_MINUS (lx "a") (lx "a")]]) = true := by
   decide +kernel
+
+/-! ## Part 3 — the fragment `E3`: recursive and imperative constructions
+
+`E3` (`Model/PPFragment3.lean`) = `E2` + `R{v := d | s}`, `R{v := d | c | s}`, `I{val | block ; …}` with blocks that are
+formulas, `v :∈ s` or `v := s` (`v` a local name or a tuple of variables), nested in any way. Proofs:
+`Lemmas/ParsePrint3.lean`, `ParsePrint3Top.lean` (parser), `PrintLex3.lean`, `PrintLex3Print.lean` (lexer, printer),
+`ParsePrint3Emb.lean` (`E2 ⊆ E3`). The `:=` of a recursion is printed with `Token::Str(ASSIGN, syntax)` (repaired defect
+2): the proofs go through the generated spelling tables (`PP3.fixed_table`, `PP3.assign_spell`), not through a literal —
+MATH `:=` is the one spelling here that a longer literal of the lexer (`:==`) extends, and a set phrase never starts with
+`=` (`PP3.items_head`). -/
+
+open CCVerif.PP3 (E3)
+
+/-- **parse_print_fragment3** (parser link on `E3`): for every well-formed set phrase or formula of `E3` the parser model
+returns the tree from the printed token sequence. New with respect to `parse_print_fragment2`: `recursion` (both
+productions — the parser decides between them only after the second part, by the token that follows it), `imperative`
+with `imp_blocks`, `variable ITERATE setexpr` / `variable ASSIGN setexpr` with the `TupleDeclaration` rewrite of a tuple on
+the left, and `SemanticCheck` (assignment blocks occur only directly below `I{…}`, so it passes). -/
+theorem parse_print_fragment3 (e : E3) (hw : e.wf = true) (hSL : e.isS = true ∨ e.isL = true) :
+    parseToks (e.toks ++ [tk .END]) = some e.ast :=
+  CCVerif.PP3.parseToks_toks_wf2 e hw hSL
+
+/-- `parse_print_fragment2` is the instance of `parse_print_fragment3` on embedded phrases -/
+example (e : E2) (hw : e.wf = true) (hSL : e.isS = true ∨ e.isL = true) : parseToks (e.toks ++ [tk .END]) = some e.ast := by
+  have := parse_print_fragment3 (PP3.emb3 e) (by rw [PP3.emb3_wf]; exact hw) (by rw [PP3.emb3_isS, PP3.emb3_isL]; exact hSL)
+  rwa [PP3.emb3_toks, PP3.emb3_ast] at this
+
+/-- **brackets_suffice_fragment3**: `brackets_suffice_fragment2` with `R{…}` and `I{…}` among the set phrases that are
+never bracketed as operands of `+ - * ∪ ∩ \ ∆ ×` (generated `CompareOperations` tables). -/
+theorem brackets_suffice_fragment3 :
+    (∀ p ∈ PP.set7L, ∀ c ∈ PP3.primTopL, ∀ s ∈ PP.sides, PP.brSet p c s = false) ∧
+    (∀ c ∈ PP3.primTopL, PP.brProd true c = false ∧ PP.brProd false c = false) ∧
+    (∀ p ∈ PP.logic4L, ∀ c ∈ PP3.unaryTopL, ∀ s ∈ PP.sides, PP.brLogic p c s = false) ∧
+    (∀ c ∈ PP3.unaryTopL, PP.brNot c = false) ∧
+    (∀ q ∈ PP3.quantL, (∀ c ∈ PP.logic4L, PP.brQ q c = true) ∧ (∀ c ∈ PP3.unaryTopL, PP.brQ q c = false)) :=
+  CCVerif.PP3.bracket_tables2
+
+/-- **fixed_spellings_fragment3** (generated spelling tables and lexer rules, both syntaxes): as
+`fixed_spellings_fragment`, for the larger list of spellings (`R`, `I`, `:=`, `:∈`, `;` added). -/
+theorem fixed_spellings_fragment3 : ∀ syn ∈ PP.synL, ∀ t ∈ PP3.fragFixed, PP.fixedBase syn t = true :=
+  CCVerif.PP3.fixed_table
+
+/-- **free_spellings_fragment3**: as `free_spellings_fragment`; `:∈` and `;` accept any following unit too. -/
+theorem free_spellings_fragment3 : ∀ syn ∈ PP.synL, ∀ t ∈ PP3.freeL, PP.freeTok syn t = true ∧
+    PP.memb t PP3.fragFixed = true ∧
+    (match (str syn t).head? with | some c => !isAlnum syn c | none => false) = true :=
+  CCVerif.PP3.free_table
+
+/-- **assign_spelling_fragment3**: the spelling of ASSIGN in the requested syntax (`:=` / ` \assign `) accepts any
+following unit or is extended by `=` only; it does not start with an alphanumeric unit; `;` is spelled as
+`GeneratorImplAST` writes it; `R` and `I` are words; none of the fixed spellings that can start a set phrase starts with
+`}` or `=`. -/
+theorem assign_spelling_fragment3 :
+    (∀ syn ∈ PP.synL,
+      (PP.freeTok syn .ASSIGN || (LexP.symStart syn (PP.fparts syn .ASSIGN).2.1 &&
+        LexP.extChars syn (PP.fparts syn .ASSIGN).2.1 == [61])) = true ∧
+      (match (str syn .ASSIGN).head? with | some c => !isAlnum syn c | none => false) = true ∧
+      str syn .PUNC_SEMICOLON = [59]) ∧
+    (∀ syn ∈ PP.synL, ∀ t ∈ PP3.wordL, PP.memb t PP3.fragFixed = true ∧
+      (PP.freeTok syn t || !LexP.symStart syn (PP.fparts syn t).2.1) = true) ∧
+    (∀ syn ∈ PP.synL, ∀ t ∈ PP3.startFixedL, PP.memb t PP3.fragFixed = true ∧
+      (match (str syn t).head? with | some c => c != 125 && c != 61 | none => false) = true) :=
+  ⟨CCVerif.PP3.assign_spell, CCVerif.PP3.word_table, CCVerif.PP3.start_table.1⟩
+
+/-- **lex_print_fragment3** (lexer link on `E3`): for every set phrase or formula of `E3` with lexer-conformant leaves
+(`E3.lexOK syn`, the same condition on leaves as `E2.lexOK`) the printer model prints a text and the lexer model reads it
+back as exactly `e.toks` (kinds and payloads) followed by END. -/
+theorem lex_print_fragment3 (syn : Syn) (e : E3) (hw : e.wf = true) (hSL : e.isS = true ∨ e.isL = true)
+    (hl : e.lexOK syn = true) :
+    ((print syn e.ast).bind (lex syn)).map (·.map fun t => (t.id, t.data)) =
+      some ((e.toks ++ [tk .END]).map fun t => (t.id, t.data)) := by
+  obtain ⟨hp, hlex⟩ := CCVerif.PP3.lex_print2 syn e hw hSL hl
+  rw [hp]
+  exact hlex
+
+/-- **parse_print_text_fragment3** (`parse_print_statement` restricted to `E3`, at the level of TEXT, both syntaxes): if
+the tree `t` is, up to positions, the tree of a set phrase or formula `e` of `E3` with lexer-conformant leaves, then print
+`t`, lex and parse the text — the result is `t` again (up to positions). Every link is a theorem, as for
+`parse_print_text_fragment2`; the fragment now contains the recursive and the imperative construction. -/
+theorem parse_print_text_fragment3 (syn : Syn) (t : Ast) (e : E3) (ht : CCVerif.PE.erA t = e.ast) (hw : e.wf = true)
+    (hSL : e.isS = true ∨ e.isL = true) (hl : e.lexOK syn = true) : roundTrips syn t = true := by
+  obtain ⟨text, t', hp, hparse, heq⟩ := CCVerif.PP3.text_roundtrip2_any syn t e ht hw hSL hl
+  simp [roundTrips, outcome, hp, hparse, heq]
+
+/-- the same for the zero-position tree of the phrase itself -/
+theorem parse_print_text_fragment3_self (syn : Syn) (e : E3) (hw : e.wf = true) (hSL : e.isS = true ∨ e.isL = true)
+    (hl : e.lexOK syn = true) : roundTrips syn e.ast = true := by
+  obtain ⟨text, t', hp, hparse, heq⟩ := CCVerif.PP3.text_roundtrip2 syn e hw hSL hl
+  simp [roundTrips, outcome, hp, hparse, heq]
+
+/-- `parse_print_text_fragment2` is the instance of `parse_print_text_fragment3` on embedded phrases -/
+example (syn : Syn) (t : Ast) (e : E2) (ht : CCVerif.PE.erA t = e.ast) (hw : e.wf = true)
+    (hSL : e.isS = true ∨ e.isL = true) (hl : e.lexOK syn = true) : roundTrips syn t = true :=
+  parse_print_text_fragment3 syn t (PP3.emb3 e) (by rw [PP3.emb3_ast]; exact ht) (by rw [PP3.emb3_wf]; exact hw)
+    (by rw [PP3.emb3_isS, PP3.emb3_isL]; exact hSL) (by rw [PP3.emb3_lexOK]; exact hl)
+
+/-- non-vacuity with real positions: `R{w := X1 | w∪X1}` (short recursion) as the parser delivers it -/
+example : ∀ syn ∈ [Syn.math, .ascii],
+    roundTrips syn (.node .NT_RECURSIVE_SHORT .none 0 14 [.node .ID_LOCAL (.text "w") 2 3 [],
+      .node .ID_GLOBAL (.text "X1") 5 7 [],
+      .node .UNION .none 10 14 [.node .ID_LOCAL (.text "w") 10 11 [], .node .ID_GLOBAL (.text "X1") 12 14 []]]) = true := by
+  intro syn _
+  refine parse_print_text_fragment3 syn _
+    (.recS (.atom .ID_LOCAL (.text "w")) (.atom .ID_GLOBAL (.text "X1"))
+      (.sbin .UNION (.atom .ID_LOCAL (.text "w")) (.atom .ID_GLOBAL (.text "X1"))))
+    (by simp [CCVerif.PE.erA, CCVerif.PE.erL, E3.ast, E3.dast]) (by decide) (Or.inl rfl) (by cases syn <;> decide +kernel)
+
+/-- `I{(x, y) | x :∈ X1; (y, z) := R{(a, b) := (x, 0) | pr1(a)∈X2 | (a∪x, b+1)}; y≠∅; z := R{w := S1 | w∪X1}}∪X2`
+as an `E3` phrase: imperative construction with all three kinds of blocks (tuple patterns on the left included), full
+and short recursion inside -/
+def sampleE3 : E3 :=
+  let v (n : String) : E3 := .atom .ID_LOCAL (.text n)
+  let g (n : String) : E3 := .atom .ID_GLOBAL (.text n)
+  .sbin .UNION
+    (.imp (.tuple (v "x") (.one (v "y")))
+      (.bmoreK .ITERATE (v "x") (g "X1")
+        (.bmoreK .ASSIGN (.tuple (v "y") (.one (v "z")))
+            (.recF (.tuple (v "a") (.one (v "b"))) (.tuple (v "x") (.one (.atom .LIT_INTEGER (.int 0))))
+              (.pred .IN (.text .SMALLPR (.tuple [1]) (v "a")) (g "X2"))
+              (.tuple (.sbin .UNION (v "a") (v "x")) (.one (.sbin .PLUS (v "b") (.atom .LIT_INTEGER (.int 1))))))
+          (.bmore (.pred .NOTEQUAL (v "y") (.atom .LIT_EMPTYSET .none))
+            (.boneK .ASSIGN (v "z") (.recS (v "w") (g "S1") (.sbin .UNION (v "w") (g "X1"))))))))
+    (g "X2")
+
+/-- non-vacuity of the `E3` theorems: the sample satisfies every hypothesis in both syntaxes, and its tree is one the
+grammar produces -/
+theorem fragment3_nonvacuous :
+    sampleE3.wf = true ∧ sampleE3.isS = true ∧ sampleE3.lexOK .math = true ∧ sampleE3.lexOK .ascii = true ∧
+    wfAst sampleE3.ast = true := by
+  decide +kernel
+
+example : ∀ syn ∈ [Syn.math, .ascii], roundTrips syn sampleE3.ast = true := by
+  intro syn _
+  have h := fragment3_nonvacuous
+  exact parse_print_text_fragment3_self syn sampleE3 h.1 (Or.inl h.2.1) (by cases syn; exact h.2.2.1; exact h.2.2.2.1)
+
+/-- the printed texts of the sample (the ASCII text spells ASSIGN ` \assign `, from the generated table) -/
+example : (print .math sampleE3.ast).map (fun u => String.ofList (u.map Char.ofNat)) =
+    some "I{(x, y) | x:∈X1; (y, z):=R{(a, b):=(x, 0) | pr1(a)∈X2 | (a∪x, b+1)}; y≠∅; z:=R{w:=S1 | w∪X1}}∪X2" := by
+  decide +kernel
+
+/-! ### top-level forms over `E3` (parser link only) -/
+
+/-- **parse_print_top_fragment3** (TOKEN level only): function definitions `[x∈S, y∈T] body` and global declarations
+`X1 :== body`, `S1 ::= body`, `F1 :== [x∈S] body`, `X1 :==` whose bodies and domains are phrases of `E3`
+(`PP3.Top`, `Lemmas/ParsePrint3Decl.lean`): the parser model returns the tree from the printed token sequence
+(`arguments`, `no_declaration`, `expression`, `FinalizeCstEmpty`, `SemanticCheck`, `CreateSyntaxTree`).
+This is the parser link alone: that the printed TEXT of these forms lexes to these tokens is NOT proved here
+(correspondence run and kernel-evaluated instances only), so `parse_print_text_fragment3` does not cover them. -/
+theorem parse_print_top_fragment3 (t : PP3.Top) (hw : t.wf = true) : parseToks (t.toks ++ [tk .END]) = some t.ast :=
+  CCVerif.PP3.parseToks_top t hw
+
+/-- `F1 :== [a∈ℬ(X1), b∈X2] R{w := a | w∪{b}}` -/
+def sampleTop3 : PP3.Top :=
+  let v (n : String) : E3 := .atom .ID_LOCAL (.text n)
+  let g (n : String) : E3 := .atom .ID_GLOBAL (.text n)
+  .glob .ID_FUNCTION (.text "F1") .PUNC_DEFINE
+    (.fdef (.more (.text "a") (.pow (g "X1")) (.one (.text "b") (g "X2")))
+      (.recS (v "w") (v "a") (.sbin .UNION (v "w") (.enum (.one (v "b"))))))
+
+/-- non-vacuity of `parse_print_top_fragment3`; the tree is one the grammar produces, and the full pipeline (text
+level, kernel-evaluated for this instance) gives it back in both syntaxes -/
+example : sampleTop3.wf = true ∧ wfAst sampleTop3.ast = true ∧
+    (∀ syn ∈ [Syn.math, .ascii], roundTrips syn sampleTop3.ast = true) := by
+  decide +kernel
+
+example : parseToks (sampleTop3.toks ++ [tk .END]) = some sampleTop3.ast :=
+  parse_print_top_fragment3 sampleTop3 (by decide)
 
 end CCVerif.C05
